@@ -2,12 +2,12 @@
 
 use crate::common::{replay_rerun, Ctx};
 use crate::gen::{BarGen, BarStyle};
-use crate::inst::{hexf, Inst, Kind, NewError, Op, Params, Res, ALL_KINDS};
+use crate::inst::{hexf, Bar, Inst, Kind, NewError, Op, Params, Res, ALL_KINDS};
 use crate::report::{par_run, Report};
 use crate::rng::Rng;
 use serde_json::json;
 
-pub const RULE: &str = "Constructor calls observed under catch_unwind: every single-period constructor for every period 0..=4096 (exhaustive), every multi-period constructor (SLOW 2 periods, MACD/PPO 3 periods) for all tuples over 0..=24 (exhaustive), boundary periods {2^31, 2^32, 2^53+1, usize::MAX-1, usize::MAX} in every period slot of the allocation-free indicators (EMA, ATR, RSI, KC, MACD, PPO, and SLOW's EMA period), sampled large periods up to 2^22 for windowed ones, multipliers {0,-2,1e300,NaN,-0.0,2.5,+inf,-inf,f64::MAX,f64::MIN,MIN_POSITIVE,5e-324,0.1}. Oracle: Err(InvalidParameter) iff some period argument is 0, else Ok, never a panic; period()/multiplier() (bitwise) and Display == NAME(params) immediately, after a stream of next calls, after reset, and on the instance's clone, restored copy and clone_from copy; Default::default() has the documented parameters and produces the same outputs as new(defaults) (1e-12 relative; bit-identity reported). Non-trivial: every (indicator, period tuple, multiplier) constructor call is a distinct case; the enumerated part is exhaustive.";
+pub const RULE: &str = "Constructor calls observed under catch_unwind: every single-period constructor for every period 0..=4096 (exhaustive), every multi-period constructor (SLOW 2 periods, MACD/PPO 3 periods) for all tuples over 0..=24 (exhaustive), boundary periods {2^31, 2^32, 2^53+1, usize::MAX-1, usize::MAX} in every period slot of the allocation-free indicators (EMA, ATR, RSI, KC, MACD, PPO, and SLOW's EMA period), sampled large periods up to 2^22 for windowed ones, multipliers {0,-2,1e300,NaN,-0.0,2.5,+inf,-inf,f64::MAX,f64::MIN,MIN_POSITIVE,5e-324,0.1}. Oracle: Err(InvalidParameter) iff some period argument is 0, else Ok, never a panic; period()/multiplier() (bitwise) and Display == NAME(params) immediately, after a stream of next calls, after reset, and on the instance's clone, restored copy and clone_from copy; Default::default() has the documented parameters and produces the same outputs as new(defaults) (1e-12 relative, NaN equal to NaN; bit-identity reported) on a market-like stream and on streams opening with NaN, +-inf, negative prices, zeros and +-f64::MAX. Non-trivial: every (indicator, period tuple, multiplier) constructor call is a distinct case; the enumerated part is exhaustive.";
 
 const BOUNDARY: [usize; 5] = [1usize << 31, 1usize << 32, (1usize << 53) + 1, usize::MAX - 1, usize::MAX];
 const MULTS: [f64; 13] = [0.0, -2.0, 1e300, f64::NAN, -0.0, 2.5, f64::INFINITY, f64::NEG_INFINITY, f64::MAX, f64::MIN, f64::MIN_POSITIVE, 5e-324, 0.1];
@@ -223,9 +223,24 @@ fn run_defaults(ctx: &Ctx) -> Report {
             violation(&mut rep, &p, "default_multiplier", format!("{}::default().multiplier() = {:?}, documented {}", kind.name(), d.multiplier(), p.k));
         }
         // behaviour: same outputs as new(defaults) on a stream long enough to wrap every default window
+        // (first a stream of market-like bars; then, on fresh instances, streams that open with a value that
+        // is not a number, a negative price, a zero - what a constructor's choice of initial fill would show on)
         let mut g = BarGen::new(BarStyle::Mixed, 1.0, ctx.seed ^ 0xDEF);
-        for i in 0..200 {
+        let openings: [&[f64]; 7] = [&[], &[f64::NAN], &[f64::INFINITY], &[f64::NEG_INFINITY], &[-5.0, -7.5, -6.0], &[0.0, -0.0], &[f64::MAX, f64::MIN]];
+        for i in 0..200 * openings.len() {
+            let round = i / 200;
+            if i % 200 == 0 && round > 0 {
+                d = match Inst::new_default(kind) {
+                    Ok(d) => d,
+                    Err(_) => break,
+                };
+                n = Inst::try_new_explicit(&p).unwrap_or_else(|e| panic!("harness: {:?}", e));
+            }
             let b = g.next();
+            let b = match openings[round].get(i % 200) {
+                Some(v) => Bar { o: *v, h: *v, l: *v, c: *v, v: b.v },
+                None => b,
+            };
             let op = if kind.has_scalar() && i % 2 == 0 { Op::NextF(b.c) } else { Op::NextBar(b) };
             let (ra, rb) = (d.apply(&op), n.apply(&op));
             rep.evaluations += 1;
